@@ -127,8 +127,9 @@ var specC24 = vstat.Spec[srvCase]{
 	Rule: "the real relay Server; one listener identity and three callers; histories of 3-14 operations listen (a second listen usurps) / unlisten / session open / session close, one at a time; " +
 		"oracle after every operation (eventual, waited up to 3 s): on the active Listen stream SetPeer minus ClearPeer == the callers currently holding an open Session towards the listener; never a ClearPeer for an unannounced peer nor a duplicate SetPeer; " +
 		"non-trivial = a caller closes and re-opens while the same listener stays, or a listen usurp",
-	Gen:   genC24,
-	Check: checkC24,
+	Gen:      genC24,
+	Check:    checkC24,
+	Inflight: true,
 }
 
 func TestC24(t *testing.T)       { vstat.Check(t, specC24) }
@@ -329,8 +330,9 @@ var specC25 = vstat.Spec[c25Case]{
 	Property: "C25",
 	Rule: "the real relay Server with three identities; histories of 3-14 operations session open (a second call for the same ordered pair replaces the first) / close / listen (replaces) / unlisten / honest send, sequential with settle or concurrent (one goroutine per identity, no settling); the remaining calls are then ended in a generated order; " +
 		"oracle: every replaced call has returned the replaced error, the newest call survives, and after all calls ended the relay (verif-tagged state) tracks 0 peers and 0 sessions; non-trivial = a replacement or concurrent delivery",
-	Gen:   genC25,
-	Check: checkC25,
+	Gen:      genC25,
+	Check:    checkC25,
+	Inflight: true,
 }
 
 func TestC25(t *testing.T)       { vstat.Check(t, specC25) }
